@@ -24,7 +24,7 @@ use pavex::server::verif::{self, Event};
 use pavex::server::{IncomingStream, Server, ServerConfiguration, ShutdownMode};
 use serde_json::{Value, json};
 
-use plan::{ConnSpec, HK, Plan, ReqSpec, gen_plan, mix};
+use plan::{ConnSpec, Plan, ReqSpec, gen_plan, mix};
 
 pub const LONG_MS: u64 = 3000;
 const WATCHDOG: Duration = Duration::from_secs(20);
